@@ -39,8 +39,8 @@ ASSUMPTIONS = [
     "inverse/copy after the original's parameter tensor was replaced are not judged (docs require update() / leave it open)",
     "CPU, float32, one transform per batch (N = 1), D = 2 (quick) and D in {2, 3} (thorough)",
 ]
-MIN_NONTRIVIAL = {"quick": 300, "thorough": 1500}
-MIN_OUTCOMES = {"quick": 300, "thorough": 1500}
+MIN_NONTRIVIAL = {"quick": 800, "thorough": 3500}
+MIN_OUTCOMES = {"quick": 300, "thorough": 1100}
 MIN_SUB_TRACES = {"call": 200, "disp": 200, "regrid": 50, "create": 100, "mutate": 200}
 
 EPS32 = 2.0 ** -23
@@ -445,17 +445,6 @@ class World:
     def tol_world(self, rg: RefGrid) -> float:
         A, _ = ts.frame(rg)
         return TOL_ULPS * EPS32 * float(np.abs(A).sum(axis=1).max())
-
-    def margin(self, members, rg) -> float:
-        """Trajectories of velocity members must stay inside the valid box."""
-        mg = 0.0
-        for m in members:
-            if m["type"] in ts.VELOCITY_TYPES:
-                v = ts.velocity_samples(m)
-                A, _ = ts.frame(m["grid"])
-                vw = np.abs(v.reshape(v.shape[0], -1).T @ A.T).sum(axis=1).max()
-                mg = max(mg, 1.5 * float(vw))
-        return mg
 
 
 # ---------------------------------------------------------------------------
@@ -978,6 +967,8 @@ class Stepper:
             self.define(r)
             if arg == "t":
                 rt.p_fresh = True
+                if kind == "callable":
+                    self.touch_followers()  # linked objects read the newly predicted parameters only at their next update
             self.composite_touch(arg)
             self.category = "mutate"
             return
@@ -1042,7 +1033,7 @@ class Stepper:
                 if not r.dead:
                     self.regrid_record(op, "cp", cp, arg)
             else:
-                r.mode = "alias" if cls in ("seq", "gen") else "shared"
+                r.mode = "shared"
                 r.grid = arg
                 if dense:
                     for m in mems:
@@ -1065,7 +1056,7 @@ class Stepper:
                 raise Stop()
             mems = [m.clone(share_box=True) for m in rt.mems]
             r = Rec(cls, kind, mems, rt.grid, (args, kwargs))
-            r.mode = "alias" if cls in ("seq", "gen") else "shared"
+            r.mode = "shared"
             r.valid, r.acc, r.curv = rt.valid, rt.acc, rt.curv
             r.dead = rt.dead
             self.define(r)
@@ -1081,8 +1072,6 @@ class Stepper:
             return
 
         if name == "link":
-            import deepali.spatial as S
-
             kw = {"stride": fx.stride[0]} if cls in ("ffd", "svffd") else {}
             other = self.call_impl(op, type(t), fx.real("g0"), params=None, **kw)
             cp = self.call_impl(op, other.link, t)
@@ -1190,6 +1179,8 @@ class Stepper:
             self.define(r)
             if who == "t":
                 r.p_fresh = True
+                if W.kind == "callable":
+                    self.touch_followers()
             self.composite_touch(who)
             return
         # disp / dispg
